@@ -285,7 +285,10 @@ def xcode(character) -> int:
             pass
     elif isinstance(character, sh.Token):
         raise ValueError
-    return inverse_codes.get(str(character)[0], None)
+    character = str(character)
+    if not character:  # CODE("") is #VALUE! (for that element only).
+        raise ValueError
+    return inverse_codes.get(character[0], None)
 
 
 FUNCTIONS["CODE"] = wrap_ufunc(
